@@ -1,3 +1,3 @@
-From Coq Require Import ZArith ExtrOcamlBasic.
+From Coq Require Import ZArith ExtrOcamlBasic ExtrOcamlNativeString.
 From GV Require Import Common.Wire C12.Model.
 Extraction "c12_model.ml" run_case Z.add Z.mul Z.div_eucl Z.opp.
